@@ -17,6 +17,7 @@ def dispatch (op : String) (j : Json) : Json :=
   | "secp.recover" => opSecpRecover j
   | "secp.judgesig" => opSecpJudgeSig j
   | "secp.compact" => opSecpCompact j
+  | "secp.addr" => opSecpAddr j
   | "secp.decodecompact" => opSecpDecodeCompact j
   | "keccak" => opKeccak j
   | "tx.sign" => opTxSign j
